@@ -551,10 +551,13 @@ fn format(opt: opt::Opt) -> Result<i32> {
                         }
 
                         // The same file can be reached through several arguments under different
-                        // spellings (`a.lua` and `./a.lua`, or `.` and `a.lua`): process it once.
-                        // Only a file that is going to be processed counts as seen: the same path
-                        // may be skipped under one spelling and selected under another.
-                        let seen_key = path.strip_prefix("./").unwrap_or(&path).to_owned();
+                        // spellings (`a.lua` and `./a.lua`, `.` and `a.lua`, or `a.lua` and
+                        // `src/../a.lua`): process it once. Only a file that is going to be
+                        // processed counts as seen: the same path may be skipped under one
+                        // spelling and selected under another.
+                        let seen_key = fs::canonicalize(&path).unwrap_or_else(|_| {
+                            path.strip_prefix("./").unwrap_or(&path).to_owned()
+                        });
                         if !seen_files.insert(seen_key) {
                             continue;
                         }
